@@ -1,85 +1,180 @@
-/-! Model/HLL.lean (prototype) — registers, histogram and the MLE secant iteration over Float; bit-identical to Rust -/
+/-!
+Model/HLL.lean — integer model of `sketch/hyperloglog/mod.rs` and of the integer parts of
+`sketch/hyperloglog/estimators.rs` (registers, `add_hash`, `merge`, `check_compatible`, `new`,
+`save_to_writer` / `from_reader`, `counts`, the histogram loop of `joint_mle_dispatch`).
+Everything the theorems of C17 / C18 talk about lives here; the floating-point MLE is in
+`Model/HLLFloat.lean`.  Core Lean only (linked into `drv_c17` / `drv_c18`).
+
+Hashes are `Nat` with the hypothesis `h < 2^64` where it matters: `value = hash >> p` is below
+`2^(64-p)`, hence `value << p ≤ hash < 2^64` and neither the shift nor the subtraction of
+`add_hash` wraps, so the `u64` arithmetic of the code coincides with the unbounded one.
+Registers are `UInt8` (`CounterType = u8`), as in the code.
+-/
 namespace Hll
 
-def clz64 (v : UInt64) : Nat :=
-  let rec go (i : Nat) (fuel : Nat) : Nat :=
-    match fuel with
-    | 0 => 64
-    | f+1 => if (v >>> (UInt64.ofNat (63 - i))) &&& 1 == 1 then i else go (i+1) f
-  go 0 64
+/-- `u64::leading_zeros` (for `v < 2^64`) -/
+def clz64 (v : Nat) : Nat := if v = 0 then 64 else 63 - v.log2
+
+/-- `cmp::max` on `u8` -/
+def umax (a b : UInt8) : UInt8 := if a ≤ b then b else a
 
 structure H where
   p : Nat
   q : Nat
+  ksize : Nat
   regs : Array UInt8
+deriving DecidableEq, Repr
 
-def H.new (p : Nat) : H := { p := p, q := 64 - p, regs := Array.replicate (2^p) 0 }
+inductive Err where
+  | precisionBounds                 -- Error::HLLPrecisionBounds
+  | mismatchKSizes                  -- Error::MismatchKSizes
+  | mismatchNum (n1 n2 : Nat)       -- Error::MismatchNum { n1, n2 }
+deriving DecidableEq, Repr
 
-def H.add (s : H) (h : UInt64) : H :=
-  let value := h >>> (UInt64.ofNat s.p)
-  let index := (h - (value <<< (UInt64.ofNat s.p))).toNat
-  let leftmost := clz64 value + 1 - s.p
-  let old := s.regs[index]!
-  { s with regs := s.regs.set! index (if old.toNat ≥ leftmost then old else UInt8.ofNat leftmost) }
+def Err.name : Err → String
+  | .precisionBounds => "HLLPrecisionBounds"
+  | .mismatchKSizes => "MismatchKSizes"
+  | .mismatchNum .. => "MismatchNum"
 
+/-- the value `new` builds: `registers = vec![0; 1 << p]`, `q = 64 - p` -/
+def H.empty (p ksize : Nat) : H :=
+  { p := p, q := 64 - p, ksize := ksize, regs := Array.replicate (2 ^ p) 0 }
+
+/-- `HyperLogLog::new`: `(4..=18).contains(&p)` else `HLLPrecisionBounds`; `q = 64 - p` -/
+def H.new (p ksize : Nat) : Except Err H :=
+  if 4 ≤ p ∧ p ≤ 18 then .ok (H.empty p ksize) else .error .precisionBounds
+
+/-- `index = (hash - ((hash >> p) << p)) as usize` -/
+def index (p h : Nat) : Nat := h - ((h >>> p) <<< p)
+
+/-- `leftmost = (hash >> p).leading_zeros() + 1 - p` -/
+def rank (p h : Nat) : Nat := clz64 (h >>> p) + 1 - p
+
+/-- `add_hash`.  (`registers[index]` panics when out of bounds; that needs a sketch that does not
+    come from `new` — `HyperLogLog::default()` — and belongs to C20.  `[i]!`/`set!` are then a no-op.) -/
+def H.add (s : H) (h : Nat) : H :=
+  let i := index s.p h
+  { s with regs := s.regs.set! i (umax s.regs[i]! (UInt8.ofNat (rank s.p h))) }
+
+/-- `add_many` / a sequence of `add_hash` calls -/
+def H.addMany (s : H) (hs : List Nat) : H := hs.foldl H.add s
+
+/-- `check_compatible`: ksize first, then the register count -/
+def checkCompatible (a b : H) : Except Err Unit :=
+  if a.ksize ≠ b.ksize then .error .mismatchKSizes
+  else if a.regs.size ≠ b.regs.size then .error (.mismatchNum a.regs.size b.regs.size)
+  else .ok ()
+
+/-- `merge`: `check_compatible`, then register-wise `cmp::max` over the zipped registers -/
+def H.merge (a b : H) : Except Err H :=
+  match checkCompatible a b with
+  | .error e => .error e
+  | .ok () => .ok { a with regs := Array.zipWith umax a.regs b.regs }
+
+/-! ### file format -/
+
+/-- `save_to_writer`: "HLL", version 1, `p as u8`, `q as u8`, `ksize as u8`, the registers -/
+def H.save (s : H) : List UInt8 :=
+  [0x48, 0x4c, 0x4c, 1, UInt8.ofNat s.p, UInt8.ofNat s.q, UInt8.ofNat s.ksize] ++ s.regs.toList
+
+inductive LoadErr where
+  | tooShort      -- niffler: fewer than 5 bytes to sniff (`Error::NifflerError`)
+  | badMagic      -- `assert_eq!(signature, 0x484c4c)` panics
+  | badVersion    -- `assert_eq!(version, 1)` panics
+  | shiftOverflow -- `1 << p` with p ≥ 64 panics (overflow checks on)
+  | eof           -- `read_u8` / `read_exact` hit the end (`Error::IOError`)
+deriving DecidableEq, Repr
+
+/-- `from_reader` on the (already decompressed) byte stream.  Bytes after the registers are ignored. -/
+def load (bs : List UInt8) : Except LoadErr H :=
+  if bs.length < 5 then .error .tooShort else
+  match bs with
+  | b0 :: b1 :: b2 :: v :: rest =>
+    if !(b0 == 0x48 && b1 == 0x4c && b2 == 0x4c) then .error .badMagic
+    else if v != 1 then .error .badVersion
+    else match rest with
+      | p :: q :: k :: body =>
+        if p.toNat ≥ 64 then .error .shiftOverflow
+        else if body.length < 2 ^ p.toNat then .error .eof
+        else .ok { p := p.toNat, q := q.toNat, ksize := k.toNat,
+                   regs := (body.take (2 ^ p.toNat)).toArray }
+      | _ => .error .eof
+  | _ => .error .tooShort
+
+/-! ### integer side of the estimators -/
+
+/-- `counts[k] += 1` (index out of range panics in the code; registers of a sketch built by
+    `new`/`add_hash`/`merge` are ≤ q+1, see `Sourmash.C18.counts_hist`) -/
+def bump (c : Array Nat) (k : Nat) : Array Nat := c.modify k (· + 1)
+
+/-- `estimators::counts` -/
 def counts (regs : Array UInt8) (q : Nat) : Array Nat :=
-  regs.foldl (fun c k => c.modify k.toNat (· + 1)) (Array.replicate (q+2) 0)
+  regs.foldl (fun c k => bump c k.toNat) (Array.replicate (q + 2) 0)
 
-/-- indices hi, hi-1, …, lo (inclusive) as naturals; empty when hi < lo (i32 range_step_inclusive … -1) -/
-def down (hi : Int) (lo : Nat) : List Nat :=
-  if hi < (lo : Int) then [] else (List.range (hi.toNat - lo + 1)).map (fun j => hi.toNat - j)
+/-- the multiplicity type chosen by `cardinality` / `joint_mle`: u8 for p < 8, u16 for p < 16, u32 above -/
+def multWidth (p : Nat) : Nat := if p < 8 then 2 ^ 8 else if p < 16 then 2 ^ 16 else 2 ^ 32
 
-def pow2i (e : Int) : Float := Float.scaleB 1.0 e    -- exact power of two
+/-- which way `mle` leaves: `counts[0] == m` → 0.0, `counts[q+1] == m` → +∞, otherwise the iteration -/
+inductive MleCase where
+  | zero | inf | iter
+deriving DecidableEq, Repr
 
-/-- az::saturating_cast::<usize>(x) for finite x: truncation toward zero, negative → 0 -/
-def satUsize (x : Float) : Nat := if x.isNaN then 0 else if x ≤ 0 then 0 else x.floor.toUInt64.toNat
+def mleCase (counts : Array Nat) (p q : Nat) : MleCase :=
+  if counts[0]! == 2 ^ p then .zero else if counts[q + 1]! == 2 ^ p then .inf else .iter
 
-partial def mleLoop (counts : Array Nat) (kMinP kMaxP q : Nat) (cPrime a mPrime del : Float)
-    (x deltaX gPrev : Float) : Float :=
-  if !(deltaX > x * del) then x else
-    let kappa : Nat := satUsize (2.0 + (Float.log2 x).floor)
-    let e : Int := -((max kMaxP kappa : Nat) : Int) - 1
-    let xPrime0 := x * pow2i e
-    let xpp := xPrime0 * xPrime0
-    let h0 := xPrime0 - (xpp / 3.0) + (xpp * xpp) * (1.0 / 45.0 - xpp / 472.5)
-    -- first loop: k from kappa-1 down to kMaxP (inclusive), as i32 range
-    let (h1, xP1) := (down ((kappa : Int) - 1) kMaxP).foldl (fun (acc : Float × Float) _ =>
-        let (h, xP) := acc
-        let hp := 1.0 - h
-        ((xP + h * hp) / (xP + hp), xP + xP)) (h0, xPrime0)
-    let g0 := cPrime * h1
-    let (_, _, g1) := (down ((kMaxP : Int) - 1) kMinP).foldl (fun (acc : Float × Float × Float) k =>
-        let (h, xP, g) := acc
-        let hp := 1.0 - h
-        let h' := (xP + h * hp) / (xP + hp)
-        (h', xP + xP, g + (Float.ofNat (counts[k]!)) * h')) (h1, xP1, g0)
-    let g := g1 + x * a
-    let deltaX' := if (g > gPrev) || (mPrime ≥ g) then deltaX * (mPrime - g) / (g - gPrev) else 0.0
-    mleLoop counts kMinP kMaxP q cPrime a mPrime del (x + deltaX') deltaX' g
+/-- the six histograms of the first loop of `joint_mle_dispatch` -/
+structure JointHist where
+  c1 : Array Nat
+  c2 : Array Nat
+  cu : Array Nat
+  cg1 : Array Nat
+  cg2 : Array Nat
+  ceq : Array Nat
+deriving Repr
 
-def mle (counts : Array Nat) (p q : Nat) (relerr : Float) : Float :=
-  let m := 2^p
-  if counts[0]! == m then 0.0 else
-  if counts[q+1]! == m then (1.0/0.0) else
-  let kMin := (List.range (q+2)).find? (fun i => counts[i]! != 0) |>.getD 0
-  let kMinP := max 1 kMin
-  let kMax := (List.range (q+2)).reverse.find? (fun i => counts[i]! != 0) |>.getD 0
-  let kMaxP := min q kMax
-  -- z loop from kMaxP down to kMinP
-  let z := (down (kMaxP : Int) kMinP).foldl (fun z i => 0.5 * z + Float.ofNat (counts[i]!)) 0.0
-  let z := z * pow2i (-(kMinP : Int))
-  let cP := counts[q+1]! + (if q ≥ 1 then counts[kMaxP]! else 0)
-  let a := z + Float.ofNat counts[0]!
-  let b := z + (Float.ofNat counts[q+1]!) * pow2i (-(q : Int))
-  let mPrime := Float.ofNat (m - counts[0]!)
-  let x := if b ≤ 1.5 * a then mPrime / (0.5 * b + a) else mPrime / (b * (Float.log (1.0 + b / a)))
-  let del := relerr / (Float.sqrt (Float.ofNat m))
-  let xf := mleLoop counts kMinP kMaxP q (Float.ofNat cP) a mPrime del x x 0.0
-  (Float.ofNat m) * xf
+def JointHist.init (q : Nat) : JointHist :=
+  let z := Array.replicate (q + 2) 0
+  { c1 := z, c2 := z, cu := z, cg1 := z, cg2 := z, ceq := z }
 
-def cardinality (s : H) : Nat :=
-  let c := counts s.regs s.q
-  let r := if s.p < 8 then mle c s.p s.q 0.01 else if s.p < 16 then mle c s.p s.q 0.05 else mle c s.p s.q 0.1
-  satUsize r
+/-- one iteration of `for (k1_, k2_) in k1.iter().zip(k2.iter())` -/
+def JointHist.step (J : JointHist) (ab : UInt8 × UInt8) : JointHist :=
+  let a := ab.1; let b := ab.2
+  let J := if a < b then { J with c1 := bump J.c1 a.toNat, cg2 := bump J.cg2 b.toNat }
+           else if b < a then { J with cg1 := bump J.cg1 a.toNat, c2 := bump J.c2 b.toNat }
+           else { J with ceq := bump J.ceq a.toNat }
+  { J with cu := bump J.cu (umax a b).toNat }
+
+def jointLoop (k1 k2 : Array UInt8) (q : Nat) : JointHist :=
+  (k1.toList.zip k2.toList).foldl JointHist.step (JointHist.init q)
+
+/-- `for (i, (&v, &u)) in cg.iter().zip(ceq.iter()).enumerate() { c[i] += v + u }` -/
+def addInto (c cg ceq : Array Nat) : Array Nat :=
+  (List.range (min cg.size ceq.size)).foldl (fun c i => c.modify i (· + (cg[i]! + ceq[i]!))) c
+
+/-- the `for _q in 0..q` loop: `half[_q] = cgA[_q] + ceq[_q] + cgB[_q+1]`, `half[q] -= half[_q]`,
+    starting from `half[q] = len` -/
+def halfHist (cgA cgB ceq : Array Nat) (q len : Nat) : Array Nat :=
+  (List.range q).foldl (fun h i =>
+      let v := cgA[i]! + ceq[i]! + cgB[i + 1]!
+      let h := h.set! i v
+      h.set! q (h[q]! - v))
+    ((Array.replicate (q + 2) 0).set! q len)
+
+/-- the five histograms handed to `mle` by `joint_mle_dispatch` -/
+structure Five where
+  c1 : Array Nat        -- → c_ax
+  c2 : Array Nat        -- → c_bx
+  cu : Array Nat        -- → c_abx
+  axbHalf : Array Nat   -- → c_axb_half (with q-1)
+  bxaHalf : Array Nat   -- → c_bxa_half (with q-1)
+deriving Repr
+
+def five (k1 k2 : Array UInt8) (q : Nat) : Five :=
+  let J := jointLoop k1 k2 q
+  { c1 := addInto J.c1 J.cg1 J.ceq,
+    c2 := addInto J.c2 J.cg2 J.ceq,
+    cu := J.cu,
+    axbHalf := halfHist J.cg1 J.cg2 J.ceq q k1.size,
+    bxaHalf := halfHist J.cg2 J.cg1 J.ceq q k2.size }
 
 end Hll
